@@ -116,12 +116,12 @@ class Gen:
             x = r.random()
             if make_gen:
                 if x < 0.2:
-                    acts.insert(r.randint(0, len(acts)), ['raise'])
+                    acts.insert(r.randint(0, len(acts)), ['raise', 1] if r.random() < 0.3 else ['raise'])
                 elif x < 0.5:
                     acts.append(['yld', r.randint(1, 9)])
             else:
                 if x < 0.2:
-                    acts.insert(r.randint(0, len(acts)), ['raise'])
+                    acts.insert(r.randint(0, len(acts)), ['raise', 1] if r.random() < 0.3 else ['raise'])
                 elif x < 0.6:
                     acts.append(['ret', r.randint(1, 9)])
         self.progs.append(acts)
@@ -419,7 +419,7 @@ def gen_cache_pattern(rng):
         if x < 0.45 and inst:
             h = r.choice(inst)
             if h in multi and r.random() < 0.5:
-                ops.append(['do', 0, ['rmH', h, r.choice(['1', '2'])]])
+                ops.append(['maybe_rmH', h, r.choice(['1', '2'])])
             else:
                 ops.append(['maybe_rmH', h])
         elif dyn:
